@@ -27,13 +27,15 @@ GOALS = {
               'a process runs in a worker',
               'a process nested in a compartment',
               'initial global time not 0', 'empty update',
-              'two ports on one store, update dictionary reused'],
+              'two ports on one store, update dictionary reused',
+              'port wired with an empty _path', 'emit_step greater than 1'],
     'thorough': ['deferral across a call boundary', 'truncated interval',
                  'quiet poll', 'two processes applied in one batch',
                  'a process runs in a worker',
                  'a process nested in a compartment',
                  'initial global time not 0', 'empty update',
-              'two ports on one store, update dictionary reused'],
+              'two ports on one store, update dictionary reused',
+              'port wired with an empty _path', 'emit_step greater than 1'],
 }
 STUBS = sched_stubs = [
     'stub processes (pure): symbolic timestep per process or per poll, symbolic '
@@ -97,6 +99,10 @@ def jobs(tier):
                       empties=True))
         J.append(_cfg('twoports-N2', 2, 2, 3, 'const', 'none', tier,
                       twoports=True))
+        J.append(_cfg('emptypath-N2', 2, 1, 3, 'const', 'none', tier,
+                      emptypath=True))
+        J.append(_cfg('emitstep-N2', 2, 2, 3, 'const', 'none', tier,
+                      emit_step=3))
         J.append(_cfg('nested-N2', 2, 2, 3, 'const', 'none', tier, nested=True))
         J.append(_cfg('nested-condfresh-N2', 2, 1, 3, 'const', 'fresh', tier,
                       nested=True))
@@ -122,6 +128,10 @@ def jobs(tier):
         J.append(_cfg('parallel-condfresh-N2', 2, 1, 3, 'const', 'fresh', tier,
                       parallel=True))
         J.append(_cfg('nested-N3', 3, 2, 3, 'const', 'none', tier, nested=True))
+        J.append(_cfg('emptypath-N2', 2, 2, 3, 'const', 'none', tier,
+                      emptypath=True))
+        J.append(_cfg('emitstep-N2', 2, 3, 3, 'const', 'none', tier,
+                      emit_step=4))
         J.append(_cfg('g0-N2', 2, 2, 4, 'const', 'none', tier, g0=5))
         J.append(_cfg('empties-N2', 2, 2, 3, 'const', 'none', tier,
                       empties=True))
@@ -238,7 +248,7 @@ def body(ctx, cfg):
             exp = 0
             for c in p.ncalls:
                 exp = exp + ite(sched.expected_end(c) <= T, c['d'], 0)
-            rows.append(EQ(row['s']['x_' + n], exp))
+            rows.append(EQ(run.xrow(row, n), exp))
             ztot = ztot + exp
         rows.append(EQ(row['s']['z'], ztot))
         ctx.observe('row_t', T)
